@@ -27,6 +27,15 @@ CHECKS = {
              'counts are parsed with find_groups on and off; every leaf is a unique token, so any loss, duplication or '
              'reordering of segments or leaves is attributed directly by comparing tokenised input and output.',
         note='trusts er7ref tokenizer; an HL7apyException counts as surfaced'),
+    'C04': dict(
+        technique='runtime monitoring: icontract post-condition on the real Validator.validate + mutation oracle over API-built conforming instances',
+        category='exploration', design='DESIGN.md §4 C04',
+        text='For every usable message structure a conforming instance is built through the public API from the tables; it must '
+             'validate, and each single-point mutation (remove a required child, exceed a maximum, add a foreign child, add an '
+             'unknown element; at message, group, segment and field level) must be rejected with an error naming the element. A '
+             'contract on Validator.validate checks on every call that encoding and shape are unchanged and is_valid <=> no errors; '
+             'the harness compares the three calling forms (repeat, raising form = first error, report file = errors+warnings).',
+        note='instance builder is independent of parser and validator; choice/pseudo-segment structures skipped'),
     'C05': dict(
         technique='runtime monitoring: differential lock-step execution under STRICT and TOLERANT with validator cross-check',
         category='exploration', design='DESIGN.md §4 C05',
@@ -52,6 +61,14 @@ CHECKS = {
              'encoding_chars must read back equal on every descendant, re-parsing must give the same set and encoding, '
              'truncation is emitted iff supplied, invalid sets must raise InvalidEncodingChars.',
         note='pool = punctuation minus . and _'),
+    'C08': dict(
+        technique='runtime monitoring: generator-prescribed group tree vs parsed tree, with soundness/flattening/equivalence/determinism monitors',
+        category='exploration', design='DESIGN.md §4 C08',
+        text='Instances of every usable message structure (required-only, all-children, random, repeated groups) are emitted '
+             'together with the group path of every line; parsing with find_groups must give declared children only, flatten to '
+             'the input lines, encode like find_groups=False, be deterministic, and - for unambiguous instances - reproduce '
+             'exactly the prescribed tree and validate.',
+        note='prescribed tree comes from the generator, not from a re-implementation of the search'),
     'C09': dict(
         technique='runtime monitoring: lock-step execution against an ordered-list reference model over operation histories',
         category='exploration', design='DESIGN.md §4 C09',
@@ -118,6 +135,14 @@ CHECKS = {
              'elements created beforehand are re-observed after every change of the defaults. Consultations of the '
              'get_default_* bindings are counted as diagnostic evidence.',
         note='parentless to_er7() always receives explicit characters; text assignment on parentless elements is delimiter-free'),
+    'C18': dict(
+        technique='runtime monitoring: differential against synthesised profiles whose single edit has known observable consequences',
+        category='exploration', design='DESIGN.md §4 C18',
+        text='Profiles are synthesised from the standard structures by one edit (identity, tighten/require/forbid a child, swap a '
+             'field datatype); the datatype and cardinality seen by elements created through parsing, traversal and add_*, and '
+             'the validate() verdicts on standard-only / profile-only instances must follow the profile; identity changes nothing; '
+             'missing structure and legacy profile raise the stated exceptions; ITI-21 cardinalities are reported.',
+        note='edited children are top-level, uniquely named segments and their leaf fields'),
 }
 
 ORDER = sorted(CHECKS)
